@@ -355,6 +355,10 @@ func genClosest(r *rand.Rand, id int) *ClosestScn {
 			if w != "" && !strings.HasPrefix(w, "-") && !seen[w] {
 				break
 			}
+			if chance(r, 0.02) { // the empty word is a word too
+				w = ""
+				break
+			}
 		}
 		if tieWord != "" && !seen[tieWord] {
 			w = tieWord
